@@ -1,5 +1,6 @@
 import Lemmas.DfsFuel
 import Lemmas.SchedMore
+import Lemmas.Termination
 /-!
 # C16 — Run rejects cycles up front; DepthFirstSort is a children-first order of every vertex;
 the graph built by any call history is well formed
@@ -216,6 +217,49 @@ theorem no_deadlock (c : Cfg) (hc : Scheduled c) (s : Sched) (hr : Reachable c s
     have hch1 : ch ∈ l1 := ht l1 w l2 hsplit ch hch
     have : (s.get ch).st = .done := by simpa using hbefore ch hch1
     rw [this]; simp
+
+/-! ## Run returns -/
+
+theorem reachable_tinv (c : Cfg) (s : Sched) (h : Reachable c s) : TInv c s := by
+  obtain ⟨evs, i, ha⟩ := h
+  have key : ∀ (evs : List Event) (s0 s1 : Sched) (i : Nat), TInv c s0 → accept c s0 evs i = .ok s1 → TInv c s1 := by
+    intro evs
+    induction evs with
+    | nil => intro s0 s1 i h0 ha; simp [accept] at ha; subst ha; exact h0
+    | cons ev evs ih =>
+      intro s0 s1 i h0 ha
+      unfold accept at ha
+      split at ha
+      · rename_i s2 hs2; exact ih s2 s1 (i + 1) (tinv_step c s0 s2 ev h0 hs2) ha
+      · simp at ha
+  exact key evs initSched s i (tinv_init c) ha
+
+/-- **Run cannot go on for ever.**  On every graph built through the API that passed the cycle
+check, "one scheduler event other than the idle poll" is a well-founded relation on the states that
+satisfy the scheduler invariants (which every reachable state does): each pick, completion,
+semaphore / lock acquisition, attempt, release, the cancellation and the exit strictly decreases a
+lexicographic rank (number of vertices that may still complete as real tasks; remaining work of all
+vertices).  A vertex re-marked by a late `ErrorSkipParents` is processed again — that is why the rank
+is lexicographic — but only finitely often. -/
+theorem run_moves_well_founded (c : Cfg) (hc : Scheduled c) : WellFounded (Moves c) := by
+  obtain ⟨ops, hops⟩ := hc.built
+  exact moves_wf c (by rw [hops]; exact buildGraph_inv ops)
+
+/-- … hence there is no infinite execution: no infinite sequence of states each obtained from the
+previous one by a non-idle scheduler event.  Together with `no_deadlock` (some event is always
+possible until everything is done) and "every started task returns", `Run` returns. -/
+theorem no_infinite_run (c : Cfg) (hc : Scheduled c) (f : Nat → Sched)
+    (h : ∀ n, Moves c (f (n + 1)) (f n)) : False := by
+  have wf := run_moves_well_founded c hc
+  have key : ∀ s, ∀ n, f n = s → False :=
+    fun s => wf.induction (C := fun s => ∀ n, f n = s → False) s
+      (fun s ih n hn => ih (f (n + 1)) (hn ▸ h n) (n + 1) rfl)
+  exact key (f 0) 0 rfl
+
+/-- the invariants the relation asks for hold in every reachable state -/
+theorem reachable_invariants (c : Cfg) (hc : Scheduled c) (s : Sched) (hr : Reachable c s) :
+    SInv c s ∧ TInv c s :=
+  ⟨reachable_sinv c hc.ancOK s hr, reachable_tinv c s hr⟩
 
 /-! Non-vacuity: a diamond sorts children first; re-adding a task keeps the edges; a 2-cycle and a
 self edge are rejected. -/
